@@ -29,10 +29,14 @@ class C16(PropBase):
                 for i in range(4, len(parts) + 1):
                     allsids.append('/'.join(parts[:i]))
             allsids = sorted(set(allsids))
+            stored = {}
             for s in allsids:
                 if rng.random() < 0.6:
                     data = [[k, rng.choice(['1', 'two', 'x y', ''])] for k in rng.sample(['a', 'b', 'sid', 'c'], rng.randint(1, 3))]
                     out.append(Case('w_update', ['', s, data], 'setup', {}))
+                    stored[s] = [k for k, _ in data]
+            self._stored = getattr(self, '_stored', {})
+            self._stored[ui] = stored
             for _ in range(ns):
                 q = ls.search_from(rng, v, allsids, allow_gt=(rng.random() < 0.15)) if rng.random() < 0.85 else rng.choice(allsids)
                 if rng.random() < 0.2 and v.alias:
@@ -42,7 +46,7 @@ class C16(PropBase):
                         e, al = rng.choice(cands)
                         q = '/'.join(e.split('/')[:-1] + [al]) if rng.random() < 0.6 else '/'.join(e.split('/')[:-1]) + '?' + self.leaf_key(ctx, v, e) + '=' + al
                 attrs = rng.choice([[], [], ['a'], ['a', 'zz'], ['sid'], ['b', 'a', 'c']])
-                enc = rng.choice(['str', 'uri', 'none'])
+                enc = rng.choice(['str', 'uri', 'none', 'none', 'last'])
                 m = {'u': ui, 'q': q, 'attrs': attrs, 'enc': enc}
                 out.append(Case('get_and_find', ['', q, attrs, enc], 'get', m))
                 out.append(Case('get_paths', ['', q, attrs, enc], 'diag', m))
@@ -91,9 +95,11 @@ class C16(PropBase):
                     if [k for k, _ in rec] != attrs:
                         return 'with attributes %r the record has keys %r' % (attrs, [k for k, _ in rec])
                 else:
-                    exp = {'str': s, 'uri': u, 'none': None}[enc]
+                    exp = {'str': s, 'uri': u, 'none': None, 'last': s.split('/')[-1]}[enc]
                     if enc == 'none':
-                        pass
+                        # omitted when the encoder returns None (unless the stored data itself has a key of that name)
+                        if 'sid' in d and not any('sid' in ks for ks in self._stored.get(case.meta['u'], {'?': ['sid']}).values()):      # (entities may share a sidecar)
+                            return "record of %r carries 'sid' = %r although the encoder returns None" % (s, d.get('sid'))
                     elif d.get('sid') != exp:
                         return "record of %r carries sid %r (encoder %s)" % (s, d.get('sid'), enc)
         return None
